@@ -42,7 +42,7 @@ auto
 Epoch::GetProtectedEpoch() const  //
     -> size_t
 {
-  return entered_.load(kRelaxed);
+  return entered_.load(std::memory_order_seq_cst);
 }
 
 /*##############################################################################
@@ -52,7 +52,16 @@ Epoch::GetProtectedEpoch() const  //
 void
 Epoch::EnterEpoch()
 {
-  entered_.store(GetCurrentEpoch(), kRelaxed);
+  // publish the reservation and make sure the reserved epoch is still the current
+  // one: a forward running in between may have missed the reservation and may have
+  // dropped what belongs to an older epoch
+  auto cur = current_->load(std::memory_order_seq_cst);
+  while (true) {
+    entered_.store(cur, std::memory_order_seq_cst);
+    const auto latest = current_->load(std::memory_order_seq_cst);
+    if (latest == cur) break;
+    cur = latest;
+  }
 }
 
 void
